@@ -849,6 +849,9 @@ def describe():
         "assumptions": ["a solver that reports success=True with an altered iterate (Byzantine) is outside the fault model",
                         "tolerances fixed in DESIGN.md: conservation 1e-6 relative, |ln Q - ln K| <= 1e-5, recovery/agreement 1e-9, brentq agreement 1e-6",
                         "liveness is judged on a fixed, VERIF_SEED-independent panel in the well-conditioned sub-domain (<= 3 equilibria, constants +-1 decade, starts 1e-5..1e-1), threshold 19/20",
-                        "flag honesty (S2) is asserted for single-point root calls only"],
-        "extra": {"fault_kinds": NSV.FAULT_KINDS},
+                        "conservation: 1e-6 of the component's own scale or of the largest solute concentration, whichever is larger (the solver works to 1e-8 of the whole unknown vector)",
+                        "flag honesty (S2): root (last invocation) and, on homogeneous systems, every point of roots/solve (last of the S invocations serving it)",
+                        "arrays returned by earlier calls of a history must not change in place later; the scalar solver is compared with the chain root (constant activity factor) or with an own bisection (composition-dependent activity factor)"],
+        "extra": {"fault_kinds": NSV.FAULT_KINDS + ["activity_callback_raise (user callback of the scalar solver raises from its k-th call on)",
+                                                    "user changes an equilibrium constant / re-orders substances / fixes the phase assumption between calls (history steps, not faults)"]},
     }
